@@ -236,13 +236,13 @@ func (c *Ctx) condsAt(fd *ast.FuncDecl, target ast.Node) []condLit {
 				break
 			}
 			if ifs, ok := s.(*ast.IfStmt); ok && ifs.Else == nil && blockAlwaysLeaves(ifs.Body) {
-				stack = append(stack, condLit{ifs.Cond, true})
+				stack = append(stack, condLit{e: ifs.Cond, neg: true})
 				pushed++
 			}
 			// if c { ...leaves } else { ...falls through }: afterwards !c holds
 			if ifs, ok := s.(*ast.IfStmt); ok && ifs.Else != nil && blockAlwaysLeaves(ifs.Body) {
 				if eb, ok := ifs.Else.(*ast.BlockStmt); ok && !blockAlwaysLeaves(eb) {
-					stack = append(stack, condLit{ifs.Cond, true})
+					stack = append(stack, condLit{e: ifs.Cond, neg: true})
 					pushed++
 				}
 			}
@@ -252,7 +252,7 @@ func (c *Ctx) condsAt(fd *ast.FuncDecl, target ast.Node) []condLit {
 					cc := cl.(*ast.CaseClause)
 					if len(cc.List) > 0 && len(cc.Body) > 0 && blockAlwaysLeaves(&ast.BlockStmt{List: cc.Body}) {
 						for _, e := range cc.List {
-							stack = append(stack, condLit{e, true})
+							stack = append(stack, condLit{e: e, neg: true})
 							pushed++
 						}
 					}
@@ -272,13 +272,13 @@ func (c *Ctx) condsAt(fd *ast.FuncDecl, target ast.Node) []condLit {
 				return
 			}
 			if contains(st.Body) {
-				stack = append(stack, condLit{st.Cond, false})
+				stack = append(stack, condLit{e: st.Cond, neg: false})
 				walkList(st.Body.List)
 				stack = stack[:len(stack)-1]
 				return
 			}
 			if st.Else != nil && contains(st.Else) {
-				stack = append(stack, condLit{st.Cond, true})
+				stack = append(stack, condLit{e: st.Cond, neg: true})
 				walkStmt(st.Else)
 				stack = stack[:len(stack)-1]
 				return
@@ -309,7 +309,7 @@ func (c *Ctx) condsAt(fd *ast.FuncDecl, target ast.Node) []condLit {
 				}
 				if inBody {
 					if st.Tag == nil && len(cc.List) == 1 {
-						stack = append(stack, condLit{cc.List[0], false})
+						stack = append(stack, condLit{e: cc.List[0], neg: false})
 						pushed++
 					}
 					walkList(cc.Body)
@@ -318,7 +318,7 @@ func (c *Ctx) condsAt(fd *ast.FuncDecl, target ast.Node) []condLit {
 				}
 				if st.Tag == nil {
 					for _, e := range cc.List {
-						stack = append(stack, condLit{e, true})
+						stack = append(stack, condLit{e: e, neg: true})
 						pushed++
 					}
 				}
@@ -367,14 +367,14 @@ func blockAlwaysLeaves(b *ast.BlockStmt) bool {
 func splitConj(cl condLit) []condLit {
 	e := unparen(cl.e)
 	if u, ok := e.(*ast.UnaryExpr); ok && u.Op == token.NOT {
-		return splitConj(condLit{u.X, !cl.neg})
+		return splitConj(condLit{e: u.X, neg: !cl.neg})
 	}
 	if b, ok := e.(*ast.BinaryExpr); ok {
 		if b.Op == token.LAND && !cl.neg || b.Op == token.LOR && cl.neg {
-			return append(splitConj(condLit{b.X, cl.neg}), splitConj(condLit{b.Y, cl.neg})...)
+			return append(splitConj(condLit{e: b.X, neg: cl.neg}), splitConj(condLit{e: b.Y, neg: cl.neg})...)
 		}
 	}
-	return []condLit{{e, cl.neg}}
+	return []condLit{{e: e, neg: cl.neg, recv: cl.recv}}
 }
 
 func (c *Ctx) literalsAt(fd *ast.FuncDecl, target ast.Node) []condLit {
